@@ -537,7 +537,8 @@ TYPE_RULES_TEXT = (" Type-limit rules (verdict for the files in the directories 
                    "(a refusal that can never be taken). BYTESIGN: no (in)equality between an `unsigned char` and a plain `char` operand (bytes from 0x80 up never compare equal). "
                    "FLAGWIDTH: every constant mask lies inside the declared type of the value it tests. SIZEOFPTR: no length argument is the sizeof of a pointer variable unless the "
                    "memory holds pointers. DEADSHADOW: no assignment to a local that hides another local of the same name is dead while the hidden one is live (read afterwards without being assigned). CONSTSTATE (reference table, see the reference-table rules): every constant a function of the unchanged tree stores into a member of an object it reaches "
-                   "through a pointer (resets and state marks) is still stored by it, by a function it calls, or covered by a whole-object store. LOCALNARROW (anchor files of the properties it is armed for): a one- or two-byte local that implicitly receives a wider value receives one inside its range (interval analysis).")
+                   "through a pointer (resets and state marks) is still stored by it, by a function it calls, or covered by a whole-object store. CONSTIFACE (reference table): every error constant a function "
+                   "returned it still returns (interval analysis of the returns; a sole positive result code likewise), and where it passed only constants to a callee at one position the same constants are passed (a computed argument has not become a constant). LOCALNARROW (anchor files of the properties it is armed for): a one- or two-byte local that implicitly receives a wider value receives one inside its range (interval analysis).")
 # LOCALNARROW is armed only where the interval engine bounds every narrowing store of the unchanged tree in the property's directories
 LOCALNARROW_PROPS = ("C04", "C05", "C06", "C08", "C09", "C10", "C11", "C12", "C13", "C14", "C15", "C16", "C19")
 for _pid, _spec in PROPS.items():
@@ -549,19 +550,20 @@ for _pid, _spec in PROPS.items():
         {"run": rules_types.run_deadshadow, "floor": 25, "scope": "anchor-dirs"},
     ]
     _spec["rules"].append({"run": rules_effect.run_conststate, "floor": 300, "scope": "anchor-dirs"})
+    _spec["rules"].append({"run": rules_effect.run_constiface, "floor": 1500, "scope": "anchor-dirs"})
     if _pid in LOCALNARROW_PROPS:
         _spec["rules"].append({"run": rules_types.run_localnarrow, "floor": 20, "scope": "anchors"})
     _spec["explanation"] += TYPE_RULES_TEXT
     _spec["technique"] += "; type-resolved operand rules (constant comparisons, byte signedness, mask width, sizeof of pointers, interval check of narrowing locals)"
 
 _ADD = {
-    "C01": ([], " ENCKEEP (part of LINCODEC): at every successful return of an encoder that was given output space and input (or asked to terminate) the finished part `done` and the encoded amount `done + scratch` are not below their values at entry, termination gives done' >= done + scratch, and the open block stays below a full code block (assumed at entry, shown at exit); exits behind the block loop where the relation is not shown are listed as not decided."),
-    "C04": ([{"run": rules_cow.run_stalebuf, "floor": 40, "scope": "anchor-dirs"}, {"run": rules_cow.run_cxxcow, "floor": 2, "ctx": {"cxx_files": ["mpt++/array.cpp"]}}, {"run": rules_cow.run_detachfail, "floor": 1}],
-            " CXXCOW: typestate with trace partitioning in mpt++/array.cpp: a content object obtained from a handle is changed in place (set_length, append, insert, skip, trim) only where its shared() test answered false on that path or it was created here. DETACHFAIL: a bool function whose `c->detach(size)` did not deliver a private copy does not answer true. STALEBUF: interval analysis with trace partitioning on (derived locals, stale locals) per function: a local computed from `A->_buf` (or that `A._buf` was computed from) is not read, dereferenced or returned after a call that may replace A's buffer (functions that store to their array parameter's `_buf`, transitively) unless it was assigned again."),
+    "C01": ([{"run": rules_cow.run_detachsame, "floor": 1}], " DETACHSAME (see C04): the output space of the encoders comes from detach(). ENCKEEP (part of LINCODEC): at every successful return of an encoder that was given output space and input (or asked to terminate) the finished part `done` and the encoded amount `done + scratch` are not below their values at entry, termination gives done' >= done + scratch, and the open block stays below a full code block (assumed at entry, shown at exit); exits behind the block loop where the relation is not shown are listed as not decided."),
+    "C04": ([{"run": rules_cow.run_stalebuf, "floor": 40, "scope": "anchor-dirs"}, {"run": rules_cow.run_cxxcow, "floor": 2, "ctx": {"cxx_files": ["mpt++/array.cpp"]}}, {"run": rules_cow.run_detachfail, "floor": 1}, {"run": rules_cow.run_detachsame, "floor": 1}, {"run": rules_cow.run_mustinstall, "floor": 18, "scope": "anchor-dirs"}],
+            " DETACHSAME: a detach implementation returns the buffer it was handed only where the interval of its reference counter lies below 2. MUSTINSTALL: from the non-null edge of `b = alloc / detach` in a function with a handle parameter every path to a return stores b (or an address inside it) into memory, hands it on or assigns it again. CXXCOW: typestate with trace partitioning in mpt++/array.cpp: a content object obtained from a handle is changed in place (set_length, append, insert, skip, trim) only where its shared() test answered false on that path or it was created here. DETACHFAIL: a bool function whose `c->detach(size)` did not deliver a private copy does not answer true. STALEBUF: interval analysis with trace partitioning on (derived locals, stale locals) per function: a local computed from `A->_buf` (or that `A._buf` was computed from) is not read, dereferenced or returned after a call that may replace A's buffer (functions that store to their array parameter's `_buf`, transitively) unless it was assigned again."),
     "C05": ([{"run": rules_traits.run_initwrites, "floor": 12}, {"run": rules_traits.run_finibound, "floor": 5}, {"run": rules_traits.run_finifirst, "floor": 5}, {"run": rules_ident.run_identoverlay, "floor": 15}],
             " FINIFIRST: in a function with a finalizer loop the used length is lowered only behind that loop (or under a growth guard / a test that there is no finalizer). IDENTOVERLAY (see C16) for the identifier element type: its finalizer reads `_base` only under `_len > _max`. INITWRITES: every `init` operation named by a type_traits table has written through its element pointer on each path to a return that can be non-negative. FINIBOUND: no store to `B->_used` reaches the read of `B->_used` that bounds a finalizer loop over B."),
-    "C06": ([{"run": rules_table.run_sparsezero, "floor": 3, "use_anchor_files": True}],
-            " SPARSEZERO: tables addressed by computed index (file-level pointers) get their memory from calloc() or are cleared with memset in the allocating function."),
+    "C06": ([{"run": rules_table.run_sparsezero, "floor": 3, "use_anchor_files": True}, {"run": rules_table.run_stabletable, "floor": 3, "use_anchor_files": True}],
+            " STABLETABLE: a file-level table whose entries are returned by address is never realloc()ed. SPARSEZERO: tables addressed by computed index (file-level pointers) get their memory from calloc() or are cleared with memset in the allocating function."),
     "C10": ([{"run": rules_types.run_signextend, "floor": 3, "use_anchor_files": True}],
             " SIGNEXTEND: in the path files no plain `char` loaded from memory is implicitly converted to an unsigned type of 4 bytes or more where it is used as a number (assignment, arithmetic, comparison, index): length bytes are read through `unsigned char`."),
     "C12": ([{"run": rules_effect.run_objects, "floor": 8, "ctx": {"records": ["mpt_reply_data", "reply_data", "mpt_reply_context", "reply_context"], "min_functions": 5}, "use_anchor_files": True},
